@@ -564,6 +564,28 @@ Example rejects_left : accepts
   ([LRegister 7 false; LSendOk 0; LTimeout 0; LReturn 0], [None], [(2%nat, [7])], [7]) = false.
 Proof. vm_compute. reflexivity. Qed.
 
+(* two connections: the reply to the call on connection 0 arrives on connection 1 and is dropped there; a second copy on
+   connection 0 is delivered *)
+Example maccepts_ex : maccepts
+  (2%nat, [(0%nat, LRegister 7 false); (0%nat, LSendOk 0); (1%nat, LRegister 8 false); (1%nat, LSendOk 0);
+           (1%nat, LPacket (pk 7 100)); (1%nat, LLookup 0); (0%nat, LPacket (pk 7 100)); (0%nat, LLookup 0); (0%nat, LHandoff 0);
+           (0%nat, LReturn 0); (1%nat, LTimeout 0); (1%nat, LReturn 0)],
+   [[Some 100%N]; [None]], [(4%nat, [7; 8])], []) = true.
+Proof. vm_compute. reflexivity. Qed.
+
+(* the same id outstanding on two connections at once is not a good run: ids are process-wide *)
+Example mrejects_shared : maccepts
+  (2%nat, [(0%nat, LRegister 7 false); (0%nat, LSendOk 0); (1%nat, LRegister 7 false); (1%nat, LSendOk 0);
+           (0%nat, LTimeout 0); (0%nat, LReturn 0); (1%nat, LTimeout 0); (1%nat, LReturn 0)],
+   [[None]; [None]], [], []) = false.
+Proof. vm_compute. reflexivity. Qed.
+
+(* a reply delivered across connections is not a run *)
+Example mrejects_cross_conn : maccepts
+  (2%nat, [(0%nat, LRegister 7 false); (0%nat, LSendOk 0); (1%nat, LPacket (pk 7 100)); (1%nat, LLookup 0); (1%nat, LHandoff 0);
+           (0%nat, LReturn 0)], [[Some 100%N]; []], [], []) = false.
+Proof. vm_compute. reflexivity. Qed.
+
 (* the hypothesis is needed: if two outstanding calls share an id, the second Store overwrites the first entry and the
    second call's deferred Delete removes it — the first caller is still waiting but unreachable *)
 Example shared_id_breaks_entry :
